@@ -23,6 +23,14 @@
 #include <BayesFilters/EstimatesExtraction.h>
 #include <BayesFilters/AdditiveMeasurementModel.h>
 #include <BayesFilters/LikelihoodModel.h>
+#include <BayesFilters/KFPrediction.h>
+#include <BayesFilters/UKFPrediction.h>
+#include <BayesFilters/GPFPrediction.h>
+#include <BayesFilters/DrawParticles.h>
+#include <BayesFilters/BootstrapCorrection.h>
+#include <BayesFilters/GaussianLikelihood.h>
+#include <BayesFilters/SIS.h>
+#include <BayesFilters/ExogenousModel.h>
 #include <BayesFilters/utils.h>
 #include <cmath>
 #include <limits>
@@ -332,7 +340,8 @@ static std::string utmm(Toks& t) {
 static void outCorr(Out& o, const GaussianMixture& c, const std::pair<bool, VectorXd>& lik) {
     o.n(c.components).n(c.dim).n(c.dim_covariance).s(shpT(c.mean())).s(shpT(c.covariance())).n(lik.first ? 1 : 0).n(lik.second.size());
 }
-// kind 0: UKF generic, 1: UKF additive, 2: SUKF (then: sub reduced)
+// kind 0: UKF generic, 1: UKF additive, 2: SUKF (then: sub reduced); b_ukfcmv: the object used is move-constructed from the configured one
+static bool g_move_corr = false;
 static std::string ukfc(Toks& t) {
     long kind = t.nat(), K = t.nat(), dl = t.nat(), dc = t.nat(); bool quat = t.flag();
     long cK = t.nat(), cl = t.nat(), cc = t.nat(); bool cq = t.flag();
@@ -346,6 +355,12 @@ static std::string ukfc(Toks& t) {
     if (kind == 0) c.reset(new UKFCorrection(std::unique_ptr<MeasurementModel>(std::move(m)), 1.0, 2.0, 0.0));
     else if (kind == 1) c.reset(new UKFCorrection(std::unique_ptr<AdditiveMeasurementModel>(std::move(m)), 1.0, 2.0, 0.0));
     else c.reset(new SUKFCorrection(std::unique_ptr<AdditiveMeasurementModel>(std::move(m)), 1.0, 2.0, 0.0, sub, reduced));
+    if (g_move_corr) {
+        std::unique_ptr<GaussianCorrection> moved;
+        if (kind == 2) moved.reset(new SUKFCorrection(std::move(*static_cast<SUKFCorrection*>(c.get()))));
+        else moved.reset(new UKFCorrection(std::move(*static_cast<UKFCorrection*>(c.get()))));
+        c = std::move(moved);      // the source is destroyed here
+    }
     c->correct(pred, corr);
     std::pair<bool, VectorXd> lik = c->getLikelihood();
     Out o; o.s("ok"); outCorr(o, corr, lik);
@@ -485,6 +500,23 @@ static std::string psadd(Toks& t) {
     long K2 = t.nat(), dl2 = t.nat(), dc2 = t.nat(); bool q2 = t.flag(); t.done();
     ParticleSet a(K1, dl1, dc1, q1), b(K2, dl2, dc2, q2); fillPS(a); fillPS(b);
     a += b;
+    Out o; o.s("ok"); outGMshape(o, a); o.s(shpT(a.state()));
+    return o.str();
+}
+
+// b_gmaugalias K dl dc q : g.augmentWithNoise(g.covariance(0)) (argument aliases the reallocated storage)
+static std::string gmaugalias(Toks& t) {
+    long K = t.nat(), dl = t.nat(), dc = t.nat(); bool q = t.flag(); t.done();
+    GaussianMixture g(K, dl, dc, q); fillGM(g);
+    bool a = g.augmentWithNoise(g.covariance(0));
+    Out o; o.s("ok").n(a); outGMshape(o, g);
+    return o.str();
+}
+// b_psaddself K dl dc q : a += a (the same object on both sides)
+static std::string psaddself(Toks& t) {
+    long K = t.nat(), dl = t.nat(), dc = t.nat(); bool q = t.flag(); t.done();
+    ParticleSet a(K, dl, dc, q); fillPS(a);
+    a += a;
     Out o; o.s("ok"); outGMshape(o, a); o.s(shpT(a.state()));
     return o.str();
 }
@@ -635,6 +667,150 @@ static std::string gpfsample(Toks& t) {
     return o.str();
 }
 
+// ---------------------------------------------------------------- predictions, particle-filter steps (deepening round)
+// exogenous input u(x) = 0.5 x: the output Ref must be shaped like the input
+struct XExo : public ExogenousModel {
+    void propagate(const Ref<const MatrixXd>& cur, Ref<MatrixXd> prop) override { prop = 0.5 * cur; }
+    bool setProperty(const std::string&) override { return false; }
+    VectorDescription getStateDescription() const override { return VectorDescription(1); }
+};
+// a generic (non-additive) state model: motion accepts any input rows (state + noise) and fills whatever it is given
+struct XGen : public StateModel {
+    XGen(const VectorDescription& d, long q, long inoise) : d_(d), q_(q), inoise_(inoise) {}
+    void propagate(const Ref<const MatrixXd>& cur, Ref<MatrixXd> prop) override { motion(cur, prop); }
+    void motion(const Ref<const MatrixXd>& cur, Ref<MatrixXd> mot) override {
+        for (long j = 0; j < mot.cols(); ++j) for (long i = 0; i < mot.rows(); ++i)
+            mot(i, j) = 0.2 * std::sin(1.0 + i + 0.5 * j) + ((i < cur.rows() && j < cur.cols()) ? 0.5 * cur(i, j) : 0.0);
+        if (d_.circular_type == VectorDescription::CircularType::Quaternion)
+            for (long j = 0; j < mot.cols(); ++j) for (std::size_t c = 0; c < d_.circular_components(); ++c) {
+                long r = d_.linear_size() + 4 * c; if (r + 4 <= mot.rows()) mot.col(j).segment(r, 4) << 1.0, 0.0, 0.0, 0.0; }
+    }
+    bool setProperty(const std::string&) override { return false; }
+    VectorDescription getStateDescription() override { return d_; }
+    VectorDescription getInputDescription() override { VectorDescription i = d_; i.add_noise_components(inoise_); return i; }
+    MatrixXd getNoiseCovarianceMatrix() override { return spd(q_, 0.2); }
+    VectorDescription d_; long q_, inoise_;
+};
+// b_linprop fn sr num pr pc skipS hasExo skipE : LinearStateModel::propagate, every skip / exogenous branch
+static std::string linprop(Toks& t) {
+    long fn = t.nat(), sr = t.nat(), num = t.nat(), pr = t.nat(), pc = t.nat(); bool skipS = t.flag(), hasExo = t.flag(), skipE = t.flag(); t.done();
+    XState sm(spd(fn, 1.0), spd(fn, 0.2), VectorDescription(fn));
+    if (hasExo) sm.add_exogenous_model(std::unique_ptr<ExogenousModel>(new XExo()));
+    sm.skip("state", skipS);
+    if (hasExo) sm.skip("exogenous", skipE);
+    MatrixXd cur = fillm(sr, num), prop = MatrixXd::Constant(pr, pc, 77.0);
+    sm.propagate(cur, prop);
+    long untouched = 0; for (long j = 0; j < pc; ++j) for (long i = 0; i < pr; ++i) if (prop(i, j) == 77.0) ++untouched;
+    Out o; o.s("ok").s(shp(prop)).n(untouched == pr * pc && pr * pc > 0 ? 0 : 1);
+    return o.str();
+}
+static void outPS(Out& o, const ParticleSet& p) { outGMshape(o, p); o.s(shpT(p.state())); }
+// b_kfp K dl dc q pK pl pc pq fn skip exo alias : KFPrediction::predict (skip: 0 none, 1 "prediction", 2 "state", 3 "exogenous")
+static std::string kfp(Toks& t) {
+    long K = t.nat(), dl = t.nat(), dc = t.nat(); bool q = t.flag(); long pK = t.nat(), pl = t.nat(), pc = t.nat(); bool pq = t.flag();
+    long fn = t.nat(), skip = t.nat(); bool exo = t.flag(), alias = t.flag(); t.done();
+    std::unique_ptr<XState> sm(new XState(spd(fn, 1.0), spd(fn, 0.2), VectorDescription(fn)));
+    if (exo) sm->add_exogenous_model(std::unique_ptr<ExogenousModel>(new XExo()));
+    KFPrediction p(std::unique_ptr<LinearStateModel>(std::move(sm)));
+    if (skip == 1) p.skip("prediction", true);
+    else if (skip == 2) p.skip("state", true);
+    else if (skip == 3 && exo) p.skip("exogenous", true);
+    GaussianMixture prev = mkGM(K, dl, dc, q, 0), pred(pK, pl, pc, pq);
+    if (alias) p.predict(prev, prev); else p.predict(prev, pred);
+    Out o; o.s("ok"); outGMshape(o, alias ? prev : pred);
+    return o.str();
+}
+// b_ukfp kind K dl dc q  n qn sl sc sq inoise skip : UKFPrediction::predict, kind 0 generic StateModel, 1 AdditiveStateModel
+static std::string ukfp(Toks& t) {
+    long kind = t.nat(), K = t.nat(), dl = t.nat(), dc = t.nat(); bool q = t.flag();
+    long n = t.nat(), qn = t.nat(), sl = t.nat(), sc = t.nat(); bool sq = t.flag(); long inoise = t.nat(); bool skip = t.flag(); t.done();
+    VectorDescription d = vdesc(sl, sc, 0, sq);
+    std::unique_ptr<UKFPrediction> p;
+    if (kind == 0) p.reset(new UKFPrediction(std::unique_ptr<StateModel>(new XGen(d, qn, inoise)), 1.0, 2.0, 0.0));
+    else p.reset(new UKFPrediction(std::unique_ptr<AdditiveStateModel>(new XState(spd(n, 1.0), spd(qn, 0.2), d)), 1.0, 2.0, 0.0));
+    if (skip) p->skip("prediction", true);
+    GaussianMixture prev = mkGM(K, dl, dc, q, 0), pred(1, 1);
+    p->predict(prev, pred);
+    Out o; o.s("ok"); outGMshape(o, pred);
+    return o.str();
+}
+// b_gpfp K dl dc q pK pl pc pq fn : GPFPrediction over a KFPrediction
+static std::string gpfp(Toks& t) {
+    long K = t.nat(), dl = t.nat(), dc = t.nat(); bool q = t.flag(); long pK = t.nat(), pl = t.nat(), pc = t.nat(); bool pq = t.flag(); long fn = t.nat(); t.done();
+    std::unique_ptr<GaussianPrediction> kf(new KFPrediction(std::unique_ptr<LinearStateModel>(new XState(spd(fn, 1.0), spd(fn, 0.2), VectorDescription(fn)))));
+    GPFPrediction p(std::move(kf));
+    ParticleSet prev(K, dl, dc, q), pred(pK, pl, pc, pq); fillPS(prev);
+    p.predict(prev, pred);
+    Out o; o.s("ok"); outPS(o, pred);
+    return o.str();
+}
+// b_draw d N dl dc q pN pl pc pq exo : DrawParticles over WhiteNoiseAcceleration (exo: two-argument constructor)
+static std::string draw(Toks& t) {
+    long d = t.nat(), N = t.nat(), dl = t.nat(), dc = t.nat(); bool q = t.flag(); long pN = t.nat(), pl = t.nat(), pc = t.nat(); bool pq = t.flag(); bool exo = t.flag(); t.done();
+    std::unique_ptr<StateModel> sm(new WhiteNoiseAcceleration(wdim(d), 1.0, 1.0));
+    std::unique_ptr<DrawParticles> p;
+    if (exo) p.reset(new DrawParticles(std::move(sm), std::unique_ptr<ExogenousModel>(new XExo())));
+    else p.reset(new DrawParticles(std::move(sm)));
+    ParticleSet prev(N, dl, dc, q), pred(pN, pl, pc, pq); fillPS(prev);
+    p->predict(prev, pred);
+    Out o; o.s("ok"); outPS(o, pred);
+    return o.str();
+}
+// b_glik N sr <meas> : GaussianLikelihood::likelihood on sr x N states
+static std::string glik(Toks& t) {
+    long N = t.nat(), sr = t.nat(); std::unique_ptr<XMeas> m = readMeas(t); t.done();
+    GaussianLikelihood gl; LikelihoodModel& l = gl;
+    std::pair<bool, VectorXd> r = l.likelihood(*m, fillm(sr, N));
+    Out o; o.s("ok").n(r.first).n(r.second.size());
+    return o.str();
+}
+// b_boot N dl dc q cN cl cc cq alias <meas> : BootstrapCorrection::correct, getLikelihood twice
+static std::string boot(Toks& t) {
+    long N = t.nat(), dl = t.nat(), dc = t.nat(); bool q = t.flag(); long cN = t.nat(), cl = t.nat(), cc = t.nat(); bool cq = t.flag(); bool alias = t.flag();
+    std::unique_ptr<XMeas> m = readMeas(t); t.done();
+    BootstrapCorrection c(std::unique_ptr<MeasurementModel>(std::move(m)), std::unique_ptr<LikelihoodModel>(new GaussianLikelihood()));
+    ParticleSet pred(N, dl, dc, q), cor(cN, cl, cc, cq); fillPS(pred);
+    if (alias) c.correct(pred, pred); else c.correct(pred, cor);
+    std::pair<bool, VectorXd> l1 = c.getLikelihood(), l2 = c.getLikelihood();
+    Out o; o.s("ok"); outPS(o, alias ? pred : cor); o.n(l1.first).n(l1.second.size()).n((l1.first == l2.first && l1.second.size() == l2.second.size()) ? 1 : 0);
+    return o.str();
+}
+// b_gpfc d N cN hm ysize mvalid alias : GPFCorrection::correct with KFCorrection + GaussianLikelihood + WhiteNoiseAcceleration
+static std::string gpfc(Toks& t) {
+    long d = t.nat(), N = t.nat(), cN = t.nat(), hm = t.nat(), ysize = t.nat(); bool mvalid = t.flag(), alias = t.flag(); t.done();
+    long n = 2 * d;
+    std::unique_ptr<XLin> m(new XLin(fillm(hm, n, 1.0), spd(hm, 0.3), ysize)); m->mvalid = mvalid;
+    std::unique_ptr<GaussianCorrection> kf(new KFCorrection(std::unique_ptr<LinearMeasurementModel>(std::move(m))));
+    GPFCorrection c(std::unique_ptr<LikelihoodModel>(new GaussianLikelihood()), std::move(kf), std::unique_ptr<StateModel>(new WhiteNoiseAcceleration(wdim(d), 1.0, 1.0)));
+    ParticleSet pred(N, n), cor(cN, n); fillPS(pred);
+    if (alias) c.correct(pred, pred); else c.correct(pred, cor);
+    std::pair<bool, VectorXd> l = c.getLikelihood();
+    Out o; o.s("ok"); outPS(o, alias ? pred : cor); o.n(l.first).n(l.second.size());
+    return o.str();
+}
+// b_sis N lin circ d nx ny hm steps : the real SIS filter (thread, boot/run/wait) for `steps` filtering steps
+struct XSIS : public SIS {
+    using SIS::SIS;
+    long steps = 0, done = 0;
+    bool run_condition() override { return done < steps; }
+    void filtering_step() override { SIS::filtering_step(); ++done; }
+    const ParticleSet& predP() const { return pred_particle_; }
+    const ParticleSet& corP() const { return cor_particle_; }
+};
+static std::string sis(Toks& t) {
+    long N = t.nat(), lin = t.nat(), circ = t.nat(), d = t.nat(), nx = t.nat(), ny = t.nat(), hm = t.nat(), steps = t.nat(); t.done();
+    long n = lin + circ;
+    std::unique_ptr<XLin> m(new XLin(fillm(hm, n, 1.0), spd(hm, 0.3), hm));
+    std::unique_ptr<PFCorrection> cor(new BootstrapCorrection(std::unique_ptr<MeasurementModel>(std::move(m)), std::unique_ptr<LikelihoodModel>(new GaussianLikelihood())));
+    std::unique_ptr<PFPrediction> pre(new DrawParticles(std::unique_ptr<StateModel>(new WhiteNoiseAcceleration(wdim(d), 1.0, 1.0))));
+    XSIS f(N, lin, circ, std::unique_ptr<ParticleSetInitialization>(new InitSurveillanceAreaGrid(10.0, 20.0, nx, ny)), std::move(pre), std::move(cor),
+           std::unique_ptr<Resampling>(new Resampling(5)));
+    f.steps = steps;
+    f.boot(); f.run(); f.wait();
+    Out o; o.s("ok").n(f.done); outPS(o, f.predP()); outPS(o, f.corP());
+    return o.str();
+}
+
 int main() {
     return vh::run([](const std::string& op, Toks& t, std::string& out) {
         if (op == "b_wna_noise") out = wna_noise(t);
@@ -654,8 +830,20 @@ int main() {
         else if (op == "b_utwna") out = utwna(t);
         else if (op == "b_utmm") out = utmm(t);
         else if (op == "b_ukfc") out = ukfc(t);
+        else if (op == "b_ukfcmv") { g_move_corr = true; out = ukfc(t); g_move_corr = false; }
         else if (op == "b_kfc") out = kfc(t);
         else if (op == "b_corrseq") out = corrseq(t);
+        else if (op == "b_psaddself") out = psaddself(t);
+        else if (op == "b_gmaugalias") out = gmaugalias(t);
+        else if (op == "b_linprop") out = linprop(t);
+        else if (op == "b_kfp") out = kfp(t);
+        else if (op == "b_ukfp") out = ukfp(t);
+        else if (op == "b_gpfp") out = gpfp(t);
+        else if (op == "b_draw") out = draw(t);
+        else if (op == "b_glik") out = glik(t);
+        else if (op == "b_boot") out = boot(t);
+        else if (op == "b_gpfc") out = gpfc(t);
+        else if (op == "b_sis") out = sis(t);
         else if (op == "b_wna_seq") out = wna_seq(t);
         else if (op == "b_lm_seq") out = lm_seq(t);
         else if (op == "b_gmacc") out = gmacc(t);
